@@ -188,6 +188,12 @@ def one_view_op(sw, path, fld, n, s, e, op, idx):
                         f'elements, a fresh view of the same window shows {len(W)}')
 
 
+IDENT_FIELDS = {('ExceptHandler', 'name'), ('alias', 'asname'), ('MatchAs', 'name'), ('MatchStar', 'name'), ('MatchMapping', 'rest'),
+                ('keyword', 'arg'), ('arg', 'arg'), ('FunctionDef', 'name'), ('AsyncFunctionDef', 'name'), ('ClassDef', 'name'),
+                ('Attribute', 'attr'), ('Name', 'id'), ('TypeVar', 'name'), ('ParamSpec', 'name'), ('TypeVarTuple', 'name')}
+IDENT_OPTIONAL = {('ExceptHandler', 'name'), ('alias', 'asname'), ('MatchMapping', 'rest')}
+
+
 def optional_steps(sw, root, quick, rnd):
     """delete / replace every optional single-node field, kind-changing puts through _args/_bases"""
     for path, f in node_paths(root):
@@ -219,6 +225,45 @@ def optional_steps(sw, root, quick, rnd):
                         sw.fail('C01', key, f'after deleting optional field {fld}: {vv}', src_after=r.src[:300])
                         continue
                     sw.post_edit(r, key, f'put(None, {fld!r})')
+        # identifier fields: another identifier is always valid there, so the put must be carried out (C03), and the
+        # optional ones can be deleted
+        for fld in a._fields:
+            if (a.__class__.__name__, fld) not in IDENT_FIELDS or not isinstance(getattr(a, fld, None), str):
+                continue
+            for code in ('zz_new',) + ((None,) if (a.__class__.__name__, fld) in IDENT_OPTIONAL else ()):
+                r = sw.fresh()
+                n = follow(r, path) if path else r
+                if not n:
+                    continue
+                sw.ev += 1
+                src0, d0 = r.src, dump(r.a)
+                desc = {'program': sw.name, 'path': [list(p) for p in path], 'op': f'put({code!r}, {fld!r})',
+                        'slot': f'{a.__class__.__name__}.{fld}', 'seq': None}
+                key = f'put_identifier@{a.__class__.__name__}.{fld}:{sw.name}:{path}:{code!r}'
+                sw.pre_edit(r)
+                try:
+                    n.put(code, field=fld)
+                except Exception as ex:
+                    sw.counts['refused'] += 1
+                    sw.distinct.add(('ident-refused', path, fld, code))
+                    if 'C12' in sw.props:
+                        sw.check_c12(r, src0, d0, ex, desc)
+                    if code is not None and not isinstance(ex, (NotImplementedError,)) and ex.__class__.__name__ != 'NodeError':
+                        sw.fail('C03', key + ':refused', f'put({code!r}, {fld!r}) on {a.__class__.__name__} raised {ex!r}: an '
+                                'identifier replaced by another identifier is valid Python and must be carried out')
+                    continue
+                sw.counts['ok'] += 1
+                sw.distinct.add(('ident', path, fld, code))
+                vv = c01_violation(r)
+                if vv:
+                    sw.fail('C01', key, f'after {desc["op"]}: {vv}', src_after=r.src[:300])
+                    sw.fail('C03', key + ':c01', f'after {desc["op"]} the tree and its source disagree: {vv}', src_after=r.src[:300])
+                    continue
+                n2 = follow(r, path) if path else r
+                got = getattr(n2.a, fld, '<missing>') if n2 else '<node gone>'
+                if got != code:
+                    sw.fail('C03', key + ':value', f'after {desc["op"]} the field holds {got!r}')
+                sw.post_edit(r, key, desc['op'])
         # code-form agreement of slice puts under raw='auto' (source str vs FST vs pure AST must give the same
         # structure, or all be refused) on argument-like and plain element fields
         for fld in ('args', 'bases', 'elts'):
